@@ -525,6 +525,9 @@ def free_call(em, n, rd, args):
         kind, et = ii
         en = em.elemname(et)
         c = itc(0)
+        if name == 'rotate' and len(real) == 3:
+            em.vstd_req.setdefault('alg_rotate_%s_%s' % (kind, en), ('alg', ('rotate', kind, et)))
+            return 'vstd_rotate_%s_%s(%s, %s, %s)' % (kind, en, em.Eval(real[0]), em.Eval(real[1]), em.Eval(real[2]))
         if name in ('find', 'remove', 'count') and len(real) == 3:
             em.vstd_req.setdefault('alg_%s_%s_%s' % (name, kind, en), ('alg', (name, kind, et)))
             return 'vstd_%s_%s_%s(%s, %s, %s)' % (name, kind, en, em.Eval(real[0]), em.Eval(real[1]), value_arg(em, et, real[2]))
@@ -1061,6 +1064,18 @@ def gen_alg(em, info):
   %(IT)s r = l; _Bool found = 0;
   for (unsigned long k = f.i; k + 1 < l.i; k++) { %(E)s *a = &f.%(C)s->data[k]; %(E)s *b = &f.%(C)s->data[k + 1]; if (!found && (%(eq)s)) { found = 1; r.i = k; } }
   return r; }
+''' % d
+    elif name == 'rotate':
+        f = '''%(IT)s vstd_rotate_%(k)s_%(en)s(%(IT)s f, %(IT)s mid, %(IT)s l) {
+  __CPROVER_assert(f.i <= mid.i && mid.i <= l.i && l.i <= f.%(C)s->size, "vstd-bounds: rotate range in range");
+  unsigned long n = l.i - f.i, s = mid.i - f.i;
+  if (n > 0 && s > 0 && s < n) {
+    /* left rotation by s positions: three reversals */
+    for (unsigned long k = 0; k < s / 2; k++) { %(E)s t = f.%(C)s->data[f.i + k]; f.%(C)s->data[f.i + k] = f.%(C)s->data[f.i + s - 1 - k]; f.%(C)s->data[f.i + s - 1 - k] = t; }
+    for (unsigned long k = 0; k < (n - s) / 2; k++) { %(E)s t = f.%(C)s->data[mid.i + k]; f.%(C)s->data[mid.i + k] = f.%(C)s->data[l.i - 1 - k]; f.%(C)s->data[l.i - 1 - k] = t; }
+    for (unsigned long k = 0; k < n / 2; k++) { %(E)s t = f.%(C)s->data[f.i + k]; f.%(C)s->data[f.i + k] = f.%(C)s->data[l.i - 1 - k]; f.%(C)s->data[l.i - 1 - k] = t; }
+  }
+  %(IT)s r = f; r.i = f.i + (n - s); return r; }
 ''' % d
     elif name == 'reverse':
         f = '''void vstd_reverse_%(k)s_%(en)s(%(IT)s f, %(IT)s l) {
